@@ -490,6 +490,10 @@ func runCorpusTL1(c *core.Ctx, prop string, cp Corpus, k, kmut, kjson, kre, kmut
 		switch {
 		case s.Panic != "":
 			bad = "panic: " + s.Panic
+		case p.Dec.OK && s.Err != "" && cp.Sanity && strings.Contains(s.Err, "min object size"):
+			// a valid input refused by the constant-4 length sanity rule: C01's known finding; C02 speaks
+			// only of what readers accept
+			c.Add("valid_inputs_refused_by_length_sanity", 1)
 		case p.Dec.OK && s.Err != "":
 			bad = "spec accepts, implementation rejects: " + s.Err
 		case !p.Dec.OK && s.Err == "":
@@ -526,6 +530,8 @@ func runCorpusTL1(c *core.Ctx, prop string, cp Corpus, k, kmut, kjson, kre, kmut
 			switch {
 			case s2.Panic != "":
 				bad2 = "panic: " + s2.Panic
+			case p.Dec.OK && s2.Err != "" && cp.Sanity && strings.Contains(s2.Err, "min object size"):
+				c.Add("valid_inputs_refused_by_length_sanity", 1)
 			case p.Dec.OK && s2.Err != "":
 				bad2 = "spec accepts, implementation rejects: " + s2.Err
 			case !p.Dec.OK && s2.Err == "":
@@ -548,7 +554,7 @@ func runCorpusTL1(c *core.Ctx, prop string, cp Corpus, k, kmut, kjson, kre, kmut
 	if prop == "C02" {
 		longStr = "{253}" // the longest string of the one-byte length form: its 4-byte re-spelling must be refused
 	}
-	res, err := c.TLC(core.TLCOpts{Module: "MC_Codec", Cfg: "MC_Codec.cfg", Workers: 8, Timeout: 20 * time.Minute,
+	res, err := c.TLC(core.TLCOpts{Module: "MC_Codec", Cfg: "MC_Codec.cfg", Workers: 8, Timeout: time.Duration(c.Pick(20, 90)) * time.Minute,
 		Files:  map[string][]byte{"SchemaData.tla": b.SchemaModuleX(tops, extraVals)},
 		OnEmit: onEmit,
 		Consts: map[string]string{"SANITY": tlaBool(cp.Sanity), "MAXLEN": "2", "LONGSTR": longStr, "K": strconv.Itoa(k), "KMUT": strconv.Itoa(kmut), "KJSON": strconv.Itoa(kjson), "KRE": strconv.Itoa(kre), "KMUT2": strconv.Itoa(kmut2), "KFN": strconv.Itoa(kfn), "KBAD": strconv.Itoa(kbad), "EDGES": tlaBool(prop == "C09")}})
